@@ -221,11 +221,12 @@ def run_contract(qualname, scenario_index, tier, seed, falsify_n):
     return out
 
 
-def run_property(prop, tier="quick", seed=0, jobs=None, only=None):
+def run_property(prop, tier="quick", seed=0, jobs=None, only=None, include=()):
     contracts = load_contracts()
     todo = []
+    wanted = {prop} | set(include)
     for q, c in contracts.items():
-        if prop in c.props and (only is None or q in only):
+        if wanted & set(c.props) and (only is None or q in only):
             for k in range(len(c.scenarios)):
                 todo.append((q, k))
     falsify_n = 3 if tier == "quick" else 25
